@@ -76,6 +76,9 @@ def cases(tier, seed):
         for i in range(0, len(listonly), 64):
             yield ['list', wi, listonly[i:i + 64]]
         yield ['seedless', wi, None]
+        if wi % 5 == 0:
+            # a test module that touches the global random generator at import
+            yield ['diskrandom', wi, [3, 11]]
         # negative and very large seeds in every mode (they reach the children
         # through the re-serialised command line)
         yield ['modes', wi, [-1, -7, 2 ** 31, 2 ** 63 + 1]]
@@ -216,7 +219,8 @@ def run_modes(wi, seeds, listonly):
             if lj != ref:
                 viol.append(('differs_from_reference_permutation', {'mode': 'list_j2'}, 'seed %s: --list-tests -j2 lists %s, reference %s' % (s, lj, ref)))
         for mode, argv, sp in (('seq', [], spec), ('j2', ['-j2'], spec),
-                               ('resumed', [], spec_nie)):
+                               ('resumed', [], spec_nie), ('v4', ['-vvvv'], spec),
+                               ('v5+j2', ['-vvvvv', '-j2'], spec), ('p', ['-p'], spec)):
             sig = {'mode': mode}
             r = runrt.run_world(sp, seed_args(s) + argv, probe=False)
             evals += 1
@@ -251,6 +255,43 @@ def run_modes(wi, seeds, listonly):
             want = {L: o for L, o in rz.items() if L.startswith('zzw')}
             if ex != want:
                 viol.append(('layer_filter_changes_order', {'mode': 'filter_after_unit'}, 'seed %s %s (module zzw.tests): executed %s, unfiltered order %s' % (s, flt, ex, want)))
+    return evals, viol
+
+
+def run_diskrandom(wi, seeds):
+    """Real discovery: the test module seeds / draws from the module-level
+    random generator while it is imported; the shuffled order must still be the
+    reference permutation, in the listing and in the run."""
+    import sys
+    from vt import env
+    from vt import worldrt
+    viol = []
+    evals = 0
+    spec = build(wi)
+    spec['prelude'] = 'import random\nrandom.seed(987654)\nrandom.random()\n'
+    base = unshuffled(spec)
+    root = env.scratch('vtc11')
+    try:
+        worldrt.write_disk(spec, root)
+        added = root not in sys.path
+        if added:
+            sys.path.insert(0, root)
+        try:
+            for s in seeds:
+                ref = ref_orders(s, base)
+                for argv, what in ((['--list-tests'], 'list'), ([], 'run'), (['-vvvv'], 'run -vvvv')):
+                    r = runrt.run_plain(['--path', root] + seed_args(s) + argv, roots=[root])
+                    evals += 1
+                    got = parse_listing(r.text) if what == 'list' else executed_orders(r, spec)[0]
+                    if r.escaped:
+                        viol.append(('run_aborted', {'mode': 'diskrandom'}, r.escaped_tb))
+                    elif got != ref:
+                        viol.append(('differs_from_reference_permutation', {'mode': 'diskrandom'}, 'seed %s, module seeds random at import, %s: %s, reference %s' % (s, what, got, ref)))
+        finally:
+            if added and root in sys.path:
+                sys.path.remove(root)
+    finally:
+        env.rmtree(root)
     return evals, viol
 
 
@@ -354,6 +395,8 @@ def run_case(case):
         evals, vs = run_modes(a, b, True)
     elif kind == 'seedless':
         evals, vs = run_seedless(a)
+    elif kind == 'diskrandom':
+        evals, vs = run_diskrandom(a, b)
     else:
         evals, vs = run_interp(a)
     viol = [{'clause': c, 'sig': s, 'detail': d, 'case': case} for c, s, d in vs[:30]]
